@@ -36,6 +36,13 @@ def h_port(cfg):
 
     rec = Rec(env, on_put=on_dep)
     port.out = rec
+    twin = None
+    if cfg.get('twin'):
+        # a second Port with the same parameters in the same environment, fed a copy of every packet at the same instant:
+        # instances share nothing, so it must behave exactly like the first
+        twin = Port(env, rate, qlimit, mode == 'bytes', eid)
+        twin_rec = Rec(env)
+        twin.out = twin_rec
 
     def source():
         for k in range(n):
@@ -43,6 +50,8 @@ def h_port(cfg):
                 yield env.timeout(sym_num('g%d' % k, sort, 0))
             size = sym_int('s%d' % k, 1)
             pkt = mk_packet(Packet, env.now, size, k)
+            if twin is not None:
+                twin.put(mk_packet(Packet, env.now, size, 1000 + k))
             waiting = len(port.store.items)
             hb = _held_bytes(held)
             d0, r0 = port.packets_dropped, port.packets_received
@@ -96,6 +105,15 @@ def h_port(cfg):
             obs('dep', a.packet_id, t)
     check('c09.nothing-held-at-end', len(held) == 0)
     check('c09.byte-size@end', eq(port.byte_size, 0))
+    if twin is not None:
+        a = [(p.packet_id, t) for p, t in rec.log]
+        b = [(p.packet_id - 1000, t) for p, t in twin_rec.log]
+        check('c09.instances-independent', [x[0] for x in a] == [x[0] for x in b] and
+              twin.packets_dropped == port.packets_dropped and twin.packets_received == port.packets_received, (a, b))
+        if len(a) == len(b):
+            for x, y in zip(a, b):
+                check('c09.instances-independent', eq(x[1], y[1]), x[0])
+        cover('two-instances')
     if dropped or len(accepted) >= 2:
         cover('nontrivial')
 
@@ -274,6 +292,9 @@ def jobs(tier, seed):
             cfg = {'n': 5, 'sorts': 'int', 'w': 2, 'rate': 8, 'bytes': by, 'maxp': '1/2'}
             cfg.update(dict(min_th=100, max_th=300, qlimit=400) if by else dict(min_th=1, max_th=3, qlimit=4))
             js.append({'harness': 'red', 'cfg': cfg, 'weight': 300, 'opts': {'max_paths': 40000}})
+    # two ports in one environment
+    for mode in ('bytes', 'pkts'):
+        js.append({'harness': 'port', 'weight': 10, 'cfg': {'rate': 8, 'mode': mode, 'n': 3, 'sorts': 'int', 'burst': [0, 1, 0], 'twin': True}})
     # an element id that is falsy but present ('' is a string like any other)
     js.append({'harness': 'port', 'weight': 1, 'cfg': {'rate': 8, 'mode': 'none', 'n': 2, 'sorts': 'int', 'burst': [0, 0], 'eid': ''}})
     for rate in (0, 8):
@@ -312,7 +333,7 @@ META = {
     'required_labels': ['c09.drop-rule', 'c09.departure-time', 'c09.byte-size@put', 'c09.byte-size@dep',
                         'c09.perhop-stamp', 'c09.monitor-bytes', 'c09.red-curve',
                         'c09.red-average'],
-    'required_covers': ['nontrivial', 'dropped', 'red-dropped', 'red-accepted', 'monitor-excluded-in-service'],
+    'required_covers': ['nontrivial', 'dropped', 'red-dropped', 'red-accepted', 'monitor-excluded-in-service', 'two-instances'],
     'bounds': {'quick': 'n=3 packets per workload (monitor: 2 packets, 2 samples); rates {0,8,64}; qlimit symbolic Int>=1 '
                         'or None; sizes Int>=1, gaps >=0 unbounded; RED thresholds (1,3,4)/(100,300,400), maxp 1/2, w in {1,2}, avg0 symbolic',
                'thorough': 'n=5-6 (monitor 3/3, RED 4-5), w in {1,2,9}, rates {0,8}'},
